@@ -5,7 +5,8 @@ pid, wt = sys.argv[1], sys.argv[2]
 N = int(sys.argv[3]) if len(sys.argv) > 3 else 2
 PFX = sys.argv[4] if len(sys.argv) > 4 else "mut"
 NUM = {2: "TWO", 3: "THREE", 4: "FOUR"}[N]
-EXTRA = (" Spread them over DIFFERENT mechanisms: at least one in a shared helper or a less prominent method/branch that the property depends on (not the single most obvious guard), and at least one that needs a history of several operations or a rare but legal configuration to manifest." if N > 2 else "")
+EXTRA4 = " This is a late round: many obvious slips (a dropped or swapped witness check, a flipped comparison in the main guard, a wrong threshold formula) have already been tried. Prefer: data ENCODING/DECODING and key construction (prefixes, lengths, byte order, offsets into binary blobs), ITERATION and CLEANUP code (loops over storage.Find results, deletion of stale entries, counters), ARITHMETIC on amounts/epochs/indices, state that must stay consistent across TWO contracts or two storage records, notification contents, and code in files OTHER than the main contract file when the property anchors them (common/*.go, deploy/*.go, rpc bindings, config). Each change must still be small and plausible."
+EXTRA = (" Spread them over DIFFERENT mechanisms: at least one in a shared helper or a less prominent method/branch that the property depends on (not the single most obvious guard), and at least one that needs a history of several operations or a rare but legal configuration to manifest." if N > 2 else "") + (EXTRA4 if PFX.startswith("m4") else "")
 p = {json.loads(l)["id"]: json.loads(l) for l in open("/verif/properties.jsonl")}[pid]
 print(f"""You are testing a verification effort by writing realistic BREAKING CHANGES to a Go repository. You get a scratch git worktree of the repository nspcc-dev/neofs-contract (NeoFS smart contracts written in the neo-go contract dialect of Go, plus a Go deployment orchestrator) at: {wt}
 Work ONLY inside {wt} (and /tmp scratch files of your own). Do not read or write anything under /verif or /repo. There is no network. Every shell call needs: export GOFLAGS=-mod=mod GOPROXY=off GOSUMDB=off GOTOOLCHAIN=local
